@@ -200,9 +200,13 @@ class Session:
         self.env.close()
 
 
+INV_FAILS: list = []   # (case index, action index, failing clause indices) from the last parse_oracle call
+
+
 def parse_oracle(out: str) -> list[list[list[str]]]:
     """-> per case: per action: list of state strings"""
     cases, cur, act = [], None, None
+    INV_FAILS.clear()
     for ln in out.splitlines():
         if ln == "CASE":
             cur, act = [], []
@@ -210,6 +214,8 @@ def parse_oracle(out: str) -> list[list[list[str]]]:
         elif ln == ".":
             cur.append(act)
             act = []
+        elif ln.startswith("  !INV "):
+            INV_FAILS.append((len(cases) - 1, len(cur), ln[7:]))
         elif ln.startswith("  "):
             act.append(ln[2:])
     return cases
